@@ -1,6 +1,7 @@
 // d_parse_log.cpp — records Parse events for TLC (Trace_Parse): C01, C02, C03, C04.
 #include "vh.h"
 #include "parse_common.h"
+#include <uriparser/UriIp4.h>
 
 static void cat(Text&a,const Text&b){ a.insert(a.end(),b.begin(),b.end()); }
 static Text operator+(Text a,const Text&b){ cat(a,b); return a; }
@@ -88,6 +89,11 @@ template<class A> static std::string parse_event(Guarded&ar,const Text&placed,in
 
 static bool fits_char(const Text&s){ for(int c:s) if(c<0||c>255) return false; return true; }
 
+// the stand-alone IPv4 parser (public: uriParseIpFourAddressA/W): range flush against a guard page
+template<class A> static std::string ip4_event(Guarded&ar,const Text&in){ typedef typename A::Ch Ch; Ch*p=ar.put<Ch>(in,false); unsigned char oct[4]={0xEE,0xEE,0xEE,0xEE}; int rc=-9;
+  int fault=guarded_call([&]{ rc= A::W==1 ? uriParseIpFourAddressA(oct,(const char*)p,(const char*)(p+in.size())) : uriParseIpFourAddressW(oct,(const wchar_t*)p,(const wchar_t*)(p+in.size())); });
+  return J().str("e","Ip4").num("w",A::W).raw("in",jtext(in)).num("rc",rc).raw("bytes",jtext(Text{oct[0],oct[1],oct[2],oct[3]})).num("fault",fault).done(); }
+
 struct LogState { Guarded ar; Guarded mid; long long n=0; LogState():ar(1<<16),mid(1<<16){} };
 
 // log one input through the given entry points; identical A/W records are logged once
@@ -121,6 +127,12 @@ VH_DRIVER(parse_log){
     { std::unordered_set<uint64_t> seen; std::vector<Text> u; for(auto&t:in) if(seen.insert(fnv(jtext(t))).second) u.push_back(t); in.swap(u); }
     if((long)in.size()>want){ std::vector<Text> keep; double step=(double)in.size()/want; for(long i=0;i<want;++i) keep.push_back(in[(size_t)(i*step)]); in.swap(keep); }
     for(auto&t:in) log_input(S,t, (S.n%8==0)? all : std::vector<int>{(int)(S.n%6)});
+    // uriParseIpFourAddress: every combination of boundary octets in each position, wrong part counts, leading zeros, stray characters
+    { std::vector<std::string> oc={"0","9","10","99","100","199","200","249","250","255","256","260","299","300","999","00","01","1a","","25","2"}; std::vector<Text> fam;
+      for(auto&a:oc) for(auto&b:oc){ fam.push_back(T((a+"."+b+".3.4").c_str())); fam.push_back(T(("1.2."+a+"."+b).c_str())); fam.push_back(T((a+".2.3."+b).c_str())); }
+      for(const char*s:{"1.2.3","1.2.3.4.5","1.2.3.4.","1.2.3.",".1.2.3","1..2.3","1.2.3.4 ","1.2.3.4/","255.255.255.255","0.0.0.0","1.2.3.25","1.2.3.2","1,2,3,4","1.2.3.-4","1.2.3.+4","1.2.3.4\x00"}) fam.push_back(T(s));
+      for(int c=1;c<256;c+=1){ Text t=T("1.2.3."); t.push_back(c); fam.push_back(t); }
+      for(auto&t:fam){ if(t.empty()) continue; if(g.pair){ if(fits_char(t)) g.event("{\"e\":\"Pair\",\"i\":0,\"a\":"+ip4_event<ApiA>(S.ar,t)+",\"w\":"+ip4_event<ApiW>(S.ar,t)+"}"); } else { g.event(ip4_event<ApiA>(S.ar,t)); g.event(ip4_event<ApiW>(S.ar,t)); } g.count("ip4"+jtext(t),true); } }
   } else if(mode=="sample"){
     // cross-check of the native walker: random walks with edits + all strings <= 3 over the representatives (subsampled)
     for(long w=0;w<want;++w){ Text s; int st=0; int len=R.below(30); for(int i=0;i<len;++i){ int c=R.below(RT.k); int tries=0; while(RT.next[(size_t)st*RT.k+c]<0&&tries<50){c=R.below(RT.k);++tries;} if(RT.next[(size_t)st*RT.k+c]<0) break; st=RT.next[(size_t)st*RT.k+c]; int cp=RT.reps[c]; int cand=R.below(256); if(RT.class_of(cand)==c) cp=cand; s.push_back(cp);} if(R.below(2)) cat(s,RT.comp[st]);
